@@ -313,6 +313,9 @@ Section Whole.
     intros H; inversion H; subst. exact (resolve_index_exn p e E).
   Qed.
 
+  Lemma render_item_exn p b e : render_item has locate p b = Raise e -> e = ValueError \/ e = KeyError \/ exists l, locate l = Raise e.
+  Proof. unfold EvalIdx.render_item. destruct (has_char ch_tick p); [apply render_part_exn|discriminate]. Qed.
+
   Lemma resolve_group_exn g e : resolve_group g = Raise e -> e = ValueError \/ e = KeyError \/ exists l, locate l = Raise e.
   Proof.
     unfold EvalIdx.resolve_group. destruct (Nat.ltb 3 _); [intros H; inversion H; auto|].
@@ -320,12 +323,12 @@ Section Whole.
     - intros H; inversion H; auto.
     - destruct (resolve_index p1) as [l|e'] eqn:E; cbn [omap]; [discriminate|].
       intros H; inversion H; subst. exact (resolve_index_exn p1 e E).
-    - destruct (render_part (strip is_py_space p1) false) as [a|e1] eqn:E1.
-      + destruct (render_part (strip is_py_space p2) true) as [b|e2] eqn:E2.
+    - destruct (render_item has locate (strip is_py_space p1) false) as [a|e1] eqn:E1.
+      + destruct (render_item has locate (strip is_py_space p2) true) as [b|e2] eqn:E2.
         * destruct (map (strip is_py_space) step) as [|st [|st2 more]]; try discriminate.
           intros H; inversion H; auto.
-        * intros H; inversion H; subst. exact (render_part_exn _ _ e E2).
-      + intros H; inversion H; subst. exact (render_part_exn _ _ e E1).
+        * intros H; inversion H; subst. exact (render_item_exn _ _ e E2).
+      + intros H; inversion H; subst. exact (render_item_exn _ _ e E1).
   Qed.
 
   Lemma rewrite_f_exn fuel : forall s e, rewrite_f fuel s = Raise e -> rewrite_exn_ok e.
